@@ -1,4 +1,8 @@
+"""C05: the core state machine (every request, the periodic check, timers) and — for the one blocking read the daemon does outside the
+core model, the stream redirector's handler — harness/props/c05_redirector.py."""
 from harness.corecheck import make
-MODULE = make("C05", ["CircusProofs/Props/C05.lean", "CircusProofs/Props/C10Wake.lean"],
+from harness.props import c05_redirector
+PARTS = [make("C05", ["CircusProofs/Props/C05.lean", "CircusProofs/Props/C10Wake.lean"],
               ["CircusProofs/Core/Pres.lean", "CircusProofs/Core/KStep.lean", "CircusProofs/Core/Generic.lean", "CircusProofs/Core/SlotFree.lean", "CircusProofs/Core/Narrow.lean", "CircusProofs/Core/Calm.lean", "CircusProofs/Props/C03.lean",
-               "CircusProofs/Props/C06.lean", "CircusProofs/Core/SlotInv.lean", "CircusProofs/Core/WakeAttr.lean", "CircusProofs/Core/WakeDefs.lean", "CircusProofs/Core/WakePrim.lean", "CircusProofs/Core/WakeInv.lean", "CircusProofs/Core/WakeHeld.lean"])
+               "CircusProofs/Props/C06.lean", "CircusProofs/Core/SlotInv.lean", "CircusProofs/Core/WakeAttr.lean", "CircusProofs/Core/WakeDefs.lean", "CircusProofs/Core/WakePrim.lean", "CircusProofs/Core/WakeInv.lean", "CircusProofs/Core/WakeHeld.lean", "CircusProofs/Core/OptionsCmd.lean"]),
+         c05_redirector]
